@@ -27,6 +27,10 @@ reading the bus subscription, THEN `Close` is called, and only after it has retu
 stopped — an emitter blocked on the full subscription holds the lock `Close` needs (F38) -/
 def subscriberClose : List String := ["drain", "close", "stopdrain"]
 
+/-- the document store's `Get` and `Query`: keys and values are read from ONE state of the view (the
+map `UpdateIndex` swapped in last), not key list first and values one by one (F58) -/
+def docRead : List String := ["onestate", "decode"]
+
 /-- `eventlogstore.query`: the entries whose payload is an operation are picked out first, the window is
 taken over them (F48: the listing used to end, silently, at the first entry that is not an operation) -/
 def logQuery : List String := ["operations", "window"]
